@@ -10,7 +10,7 @@ of the two regions and match one of the known statement shapes exactly; anything
 import ast
 import re
 
-from .common import Refuse, src, write_gen
+from .common import Refuse, coq_bs, src, write_gen
 
 SOURCE = "kojen/statemachine_templates_py/TEMPLATEStateMachine.py"
 SM = r"<<<STATEMACHINENAME>>>"
@@ -106,7 +106,81 @@ def run():
     text = "From KV Require Import Model.PyShape.\n\n"
     text += "Definition py_init : list (nat * pk) := %s.\n\n" % coq(init)
     text += "Definition py_process : list (nat * pk) := %s.\n" % coq(proc)
+    reserved, suffixes = module_names(src(SOURCE).decode("utf-8"))
+    text += "\n(* bare module-level names the template binds or relies on: a state / event / action / guard of that name collides *)\n"
+    text += "Definition py_reserved_names : list string := [%s].\n" % "; ".join(coq_bs(n) for n in reserved)
+    text += "(* names the template forms from the state machine's name: <Name> ++ suffix *)\n"
+    text += "Definition py_reserved_suffixes : list string := [%s].\n" % "; ".join(coq_bs(n) for n in suffixes)
     return write_gen("PyTmpl.v", text, [SOURCE])
+
+
+def scan_names(template):
+    """Obligations on the module's name space (fail closed) and the list of reserved bare names.
+      * the star import of the controller module is the FIRST import: whatever the template imports afterwards re-binds its
+        own names, so a controller name (an event class) can never replace a library name the machine relies on;
+      * library modules are either imported as modules (qualified use) or their imported names are listed here;
+      * every bare name the template loads is a builtin, a local/parameter, a tag, or listed."""
+    import ast
+    import builtins
+    detag = []
+    for line in template.split("\n"):
+        if re.fullmatch(r"\s*<<<PER_\w+_(BEGIN|END)>>>\s*", line):
+            continue
+        detag.append(re.sub(r"<<<(\w+)(=[^<>]*)?>>>", lambda m: "TAG_" + m.group(1), line))
+    problems = []
+    try:
+        mod = ast.parse("\n".join(detag))
+    except SyntaxError as e:
+        return [], [], ["template does not parse after removing the tags: %s" % e]
+    imports = [n for n in mod.body if isinstance(n, (ast.Import, ast.ImportFrom))]
+    if any(isinstance(n, (ast.Import, ast.ImportFrom)) for n in ast.walk(mod) if n not in imports):
+        problems.append("import statement below module level")
+    if not imports or not (isinstance(imports[0], ast.ImportFrom) and imports[0].module == "TAG_STATEMACHINENAMEController"
+                           and [a.name for a in imports[0].names] == ["*"]):
+        problems.append("the star import of the controller module is not the first import of the template: a controller name "
+                        "(event class) could replace a name imported before it")
+    bound = []
+    for n in imports:
+        if isinstance(n, ast.ImportFrom) and any(a.name == "*" for a in n.names):
+            if n.module != "TAG_STATEMACHINENAMEController":
+                problems.append("star import of " + str(n.module))
+            continue
+        for a in n.names:
+            bound.append(a.asname or a.name.split(".")[0])
+    suffixes = []
+    for n in mod.body:
+        if isinstance(n, ast.ClassDef):
+            if n.name.startswith("TAG_STATEMACHINENAME"):
+                suffixes.append(n.name[len("TAG_STATEMACHINENAME"):])
+            else:
+                bound.append(n.name)
+        elif isinstance(n, (ast.FunctionDef, ast.Assign)):
+            problems.append("module-level definition of unknown kind at line %d" % n.lineno)
+    local = {"self", "event", "controller"}
+    loaded = []
+    for fn in ast.walk(mod):
+        if isinstance(fn, ast.FunctionDef):
+            local |= {a.arg for a in fn.args.args}
+    for n in ast.walk(mod):
+        if isinstance(n, ast.Name) and isinstance(n.ctx, ast.Store):
+            local.add(n.id)
+    for n in ast.walk(mod):
+        if isinstance(n, ast.Name) and isinstance(n.ctx, ast.Load):
+            if n.id in local or n.id.startswith("TAG_") or hasattr(builtins, n.id) or n.id in bound:
+                continue
+            if n.id not in loaded:
+                loaded.append(n.id)
+    return sorted(set(bound + loaded)), sorted(suffixes), problems
+
+
+
+
+
+def module_names(template):
+    reserved, suffixes, problems = scan_names(template)
+    if problems:
+        raise Refuse("; ".join(problems))
+    return reserved, suffixes
 
 
 if __name__ == "__main__":
